@@ -229,10 +229,10 @@ def make_tasks_factory(scn, r, root, mods, log, counter):
             'result': 'res:%d:%d' % (i, exec_id), 'exec_id': exec_id,
             'output_dir': outdir,
             'payload': {'run': r, 'deep': {'x': [exec_id, i]}}})
-        jobmod = sys.modules.get('verif_c04_job')
-        if run['via'] == 'execute' and jobmod is not None:
+        cls = CURRENT.get('job_result_class')
+        if run['via'] == 'execute' and cls is not None:
             # a result whose class is defined in the job file
-            mine['job_result'] = jobmod.JobResult(exec_id)
+            mine['job_result'] = cls(exec_id)
         upd = {specs[i]['name']: mine}
         if out == 'failed':
             return upd, status_enum.FAILED
